@@ -1,0 +1,73 @@
+//go:build verif
+
+// Contracts for the govc verifier (see /verif/DESIGN.md). Comment-only file.
+package rlp
+
+//@ # ---------------------------------------------------------------- canonical heads (C23)
+//@ # abstract input: the next byte of the stream, and the big-endian integer formed by its next n bytes
+//@ ghost nextByte(s *Stream) int
+//@ ghost nextUint(s *Stream, n int) int
+//@ ghost nextLead(s *Stream) int
+
+//@ # ASSUMED (reader plumbing over io.Reader): readByte yields the next input byte; readUint(size>=2) the next size
+//@ # bytes as a big-endian integer and fails with ErrCanonSize when the first of them is zero
+//@ func (*Stream).readByte
+//@   trusted
+//@   ensures result1 == nil ==> result0 == old(nextByte(s))
+
+//@ func (*Stream).readFull
+//@   trusted
+//@   ensures err == nil ==> len(buf) >= 1 ==> buf[0] == old(nextLead(s))
+
+//@ # the decoder accepts a head only in its canonical form: single bytes below 0x80 stand for themselves, sizes
+//@ # below 56 use the short form, long-form sizes are at least 56 (and have no leading zero: readUint)
+//@ func (*Stream).readKind
+//@   serves C23
+//@   let b = old(nextByte(s))
+//@   requires s != nil
+//@   ensures single: err == nil && b < 128 ==> kind == Byte && size == 0 && s.byteval == b
+//@   ensures shortstr: err == nil && 128 <= b && b < 184 ==> kind == String && size == b - 128
+//@   ensures longstr: err == nil && 184 <= b && b < 192 ==> kind == String && size >= 56
+//@   ensures shortlist: err == nil && 192 <= b && b < 248 ==> kind == List && size == b - 192
+//@   ensures longlist: err == nil && 248 <= b ==> kind == List && size >= 56
+
+//@ func (*Stream).readUint
+//@   serves C23
+//@   requires s != nil && size <= 8
+//@   ensures zero: size == 0 ==> result0 == 0 && result1 == nil
+
+//@ # the encoder writes integers big-endian in the minimal number of bytes (no leading zero)
+//@ func putint
+//@   serves C23
+//@   requires len(b) >= 8
+//@   ensures s1: size == 1 <==> i < 256
+//@   ensures s2: size == 2 <==> (256 <= i && i < 65536)
+//@   ensures s3: size == 3 <==> (65536 <= i && i < 16777216)
+//@   ensures s4: size == 4 <==> (16777216 <= i && i < 4294967296)
+//@   ensures s5: size == 5 <==> (4294967296 <= i && i < 1099511627776)
+//@   ensures s6: size == 6 <==> (1099511627776 <= i && i < 281474976710656)
+//@   ensures s7: size == 7 <==> (281474976710656 <= i && i < 72057594037927936)
+//@   ensures s8: size == 8 <==> 72057594037927936 <= i
+//@   ensures range: 1 <= size && size <= 8
+//@   ensures lead: i != 0 ==> b[0] != 0
+//@   ensures v1: size == 1 ==> b[0] == i
+//@   ensures v2: size == 2 ==> b[0]*256 + b[1] == i
+//@   ensures v3: size == 3 ==> (b[0]*256 + b[1])*256 + b[2] == i
+//@   ensures v4: size == 4 ==> ((b[0]*256 + b[1])*256 + b[2])*256 + b[3] == i
+//@   ensures v8: size == 8 ==> ((((((b[0]*256 + b[1])*256 + b[2])*256 + b[3])*256 + b[4])*256 + b[5])*256 + b[6])*256 + b[7] == i
+
+//@ # heads: short form below 56, long form with the minimal-length size otherwise
+//@ func puthead
+//@   serves C23
+//@   requires len(buf) >= 9 && smalltag <= 200 && largetag <= 247
+//@   ensures short: size < 56 ==> result == 1 && buf[0] == smalltag + size
+//@   ensures long: size >= 56 ==> result >= 2 && result <= 9 && buf[0] == largetag + (result - 1) && buf[1] != 0
+
+//@ func intsize
+//@   serves C23
+//@   ensures range: 1 <= size && size <= 8
+//@   loop 0 invariant cases: (size == 1 && i < 18446744073709551616) || (size == 2 && i < 72057594037927936) || (size == 3 && i < 281474976710656) || (size == 4 && i < 1099511627776) || (size == 5 && i < 4294967296) || (size == 6 && i < 16777216) || (size == 7 && i < 65536) || (size == 8 && i < 256)
+
+//@ func headsize
+//@   serves C23
+//@   ensures short: size < 56 <==> result == 1
